@@ -79,6 +79,9 @@ func (s *Solver) Close() {
 		s.cmd.Wait()
 		s.cmd = nil
 	}
+	// commands buffered for the dead process (e.g. its prelude) must not be
+	// replayed into a restarted one: a second set-logic kills cvc5
+	s.buf.Reset()
 }
 
 func (s *Solver) send(line string) {
@@ -304,21 +307,33 @@ func (s *Solver) readSexp() (string, error) {
 
 func parseValues(txt string, m map[string]uint64) error {
 	// ((|name| #x..) (|n2| true) ...)
-	i := 0
+	// cvc5 prints simple symbols without bars: ((name #b..) ...)
 	n := len(txt)
+	i := strings.IndexByte(txt, '(') + 1 // past the outer parenthesis
 	for i < n {
-		// find "(|"
-		k := strings.Index(txt[i:], "(|")
+		// find the "(" opening the next (name value) pair
+		k := strings.IndexByte(txt[i:], '(')
 		if k < 0 {
 			break
 		}
-		i += k + 2
-		e := strings.IndexByte(txt[i:], '|')
-		if e < 0 {
-			return fmt.Errorf("bad get-value output")
+		i += k + 1
+		var name string
+		if i < n && txt[i] == '|' {
+			i++
+			e := strings.IndexByte(txt[i:], '|')
+			if e < 0 {
+				return fmt.Errorf("bad get-value output")
+			}
+			name = txt[i : i+e]
+			i += e + 1
+		} else {
+			e := strings.IndexAny(txt[i:], " \n")
+			if e < 0 {
+				return fmt.Errorf("bad get-value output")
+			}
+			name = txt[i : i+e]
+			i += e
 		}
-		name := txt[i : i+e]
-		i += e + 1
 		// skip spaces
 		for i < n && (txt[i] == ' ' || txt[i] == '\n') {
 			i++
